@@ -54,7 +54,7 @@ def gen_case(rng, min_remaps=2):
     span = 4 if dt == "f32" else rng.choice([4, 64, 10**6])
     lo0, hi0 = (-span, span) if contain else rng.choice([(-1, 1), (span, 2 * span), (0, F(1, 2))])
     case = {"kind": "sbr", "dims": dims, "lo": [q(F(lo0))] * nd, "hi": [q(F(hi0))] * nd, "dtype": dt, "freq": freq,
-            "cap": cap, "layout": rng.choice(["", "s", "v", "o", "sv", "om"]), "sol_dim": rng.choice([1, 2]),
+            "cap": cap, "layout": rng.choice(["", "s", "v", "o", "sv", "om", "b", "vb"]), "sol_dim": rng.choice([1, 2]),
             "off": q(rng.choice([F(0), F(-8), F(3, 2)]))}
     style = rng.choice(["uniform", "dups", "drift", "far"])
     pool = [[q(F(rng.randint(-8 * span, 8 * span), 8)) for _ in range(nd)] for _ in range(rng.choice([2, 3, 5]))]
@@ -479,18 +479,73 @@ class Run:
         return None
 
 
+def gen_rank(rng, big=False):
+    """rank-formula sweep: several dimensions with many cells, one long history whose k-th remap sees k*freq
+    buffered solutions, so one case checks boundary j = order statistic floor(j*n/d) for hundreds of (d, n) pairs"""
+    while True:
+        dims = [rng.randint(2, 32) for _ in range(rng.choice([2, 3, 4]))]
+        prod = 1
+        for d in dims:
+            prod *= d
+        if prod <= 60000:
+            break
+    return {"kind": "sbrank", "dims": dims, "freq": rng.choice([2, 3, 4, 4, 5, 7, 8]),
+            "n": rng.choice([700, 1000] if big else [240, 400]), "seed": rng.randrange(10**6), "ops": []}
+
+
+def run_rank(case):
+    import random
+    from ribs.archives import SlidingBoundariesArchive
+    dims, freq, n = case["dims"], case["freq"], case["n"]
+    a = SlidingBoundariesArchive(solution_dim=1, dims=dims, ranges=[(0, 1)] * len(dims), remap_frequency=freq,
+                                 buffer_capacity=n + 1)
+    r = random.Random(case["seed"])
+    cols = [[] for _ in dims]
+    drv = Driver("sliding")
+    try:
+        for t in range(1, n + 1):
+            m = [float(r.randrange(-10**6, 10**6)) for _ in dims]
+            for c, x in zip(cols, m):
+                c.append(x)
+            a.add_single([float(t)], float(r.randrange(-100, 100)), m)
+            if t % freq:
+                continue
+            for k, d in enumerate(dims):
+                srt = sorted(cols[k])
+                want = [srt[(j * t) // d] for j in range(d)] + [srt[-1]]
+                got = [float(x) for x in a.boundaries[k][:d + 1]]
+                if got != want:
+                    j = next(i for i in range(d + 1) if got[i] != want[i])
+                    return Failure("oracle", f"[C15] remap with {t} buffered solutions, dimension {k} with {d} cells: boundary "
+                                   f"{j} is {got[j]} (order statistic {srt.index(got[j]) if got[j] in srt else '?'}) but the "
+                                   f"evenly spaced order statistic floor({j}*{t}/{d}) = {(j * t) // d} is {want[j]}")
+                if (t // freq) % 16 == 1:   # the model on a subset (it agrees with the oracle by T15.1)
+                    mb = [F(x) for x in drv.ask(f"bounds {d} {ql(F(x) for x in cols[k])}").split(",")]
+                    if [F(x) for x in got] != mb:
+                        return Failure("corr", f"[C15] boundaries impl vs model differ (n={t}, d={d})")
+        return None
+    finally:
+        drv.close()
+
+
 def run_case(case, props=("C15",)):
+    if case.get("kind") == "sbrank":
+        return run_rank(case)
     return Run(case, props).run()
 
 
 def nontrivial(case):
+    if case.get("kind") == "sbrank":
+        return True
     n = sum(1 if op["op"] == "add1" else len(op.get("rows", [])) if op["op"] == "add" else 0 for op in case["ops"])
     return n >= 2 * case["freq"]
 
 
 def run(ctx):
     ctx.explore("remaps", gen_case, lambda c: run_case(c, {"C15"}), ctx.n(300, 20000), nontrivial=nontrivial,
-                time_budget=35 if ctx.quick else 420)
+                time_budget=25 if ctx.quick else 330)
+    ctx.explore("rank-sweep", (lambda rng: gen_rank(rng, big=not ctx.quick)), lambda c: run_case(c, {"C15"}),
+                ctx.n(6, 600), time_budget=12 if ctx.quick else 120)
 
 
 def replay(ctx, case):
